@@ -157,6 +157,42 @@ func checkC02(ck *Check) {
 
 	ck.lockBodies("C02.R3")
 	ck.lockConstruction("C02.R4")
+	// R3 (continued): nothing else releases or forges the lock
+	{
+		var bad []string
+		for _, c := range ck.P.callers[a.Unlock] {
+			if c != a.Locked {
+				bad = append(bad, funcID(c))
+			}
+		}
+		ck.cond(len(bad) == 0, "C02.R3", "unlock/callers", "", funcID(a.Unlock), "unlock() is called only from locked() (after the cool-down elapsed)", strings.Join(bad, ", "), "the lock can be released inside the cool-down by "+strings.Join(bad, ", "))
+		fIsLocked := field(a.TLock, "isLocked")
+		n := 0
+		for _, fn := range ck.P.Funcs {
+			for _, b := range fn.Blocks {
+				for _, in := range b.Instrs {
+					if st, ok := in.(*ssa.Store); ok && fieldOfAddr(st.Addr) == fIsLocked && fn != a.Lock && fn != a.Unlock {
+						n++
+						ck.fail("C02.R3", funcID(fn)+"/isLocked-store", ck.P.instrPos(st), funcID(fn), "isLocked is written only by lock() and unlock()", "", "the lock state is changed behind the lock's back")
+					}
+				}
+			}
+		}
+		// whole-lock overwrites (nodeGroup.scaleUpLock = scaleLock{…}) outside construction
+		fLock := field(a.TState, "scaleUpLock")
+		for _, fn := range ck.P.Funcs {
+			if fn == a.NewController || fn == a.BuildState {
+				continue
+			}
+			for _, b := range fn.Blocks {
+				for _, in := range b.Instrs {
+					if st, ok := in.(*ssa.Store); ok && fieldOfAddr(st.Addr) == fLock {
+						ck.fail("C02.R3", funcID(fn)+"/lock-overwrite", ck.P.instrPos(st), funcID(fn), "a group's scale lock is never replaced after construction", "", "replacing the lock value resets the cool-down")
+					}
+				}
+			}
+		}
+	}
 }
 
 // lockBodies: C02.R3 and R5.
